@@ -4,21 +4,22 @@
 use super::*;
 use crate::op::verif_support::*;
 
-fn store(a: f64, b: f64, c: f64, d: f64) {
+fn store(a: f64, b: f64, c: f64, d: f64) -> ParsedParameters {
     // what `new` stores: factor of the input unit, reciprocal factor of the output unit
-    t_real("xy_in_to_pivot", a);
-    t_real("pivot_to_xy_out", b);
-    t_real("z_in_to_pivot", c);
-    t_real("pivot_to_z_out", d);
+    let mut p = bare_params("unitconvert");
+    t_real(&mut p, "xy_in_to_pivot", a);
+    t_real(&mut p, "pivot_to_xy_out", b);
+    t_real(&mut p, "z_in_to_pivot", c);
+    t_real(&mut p, "pivot_to_z_out", d);
+    p
 }
 
-//@h {"id":"C11.K.unitconvert.fwd","props":["C11","C10","C09","C02"],"tier":"quick","kind":"bounded","bound":"coordinates: all f64 bit patterns; unit factors: power-of-two probes (2, 1/8; 4, 1/32)","replay":"none","timeout":900,"text":"unitconvert fwd multiplies x and y by xy_in * (1/xy_out), z by z_in * (1/z_out), leaves t bit-identical, counts every tuple; second tuple transformed independently"}
+//@h {"id":"C11.K.unitconvert.fwd","props":["C11","C10","C09","C02"],"tier":"quick","kind":"bounded","bound":"coordinates: all f64 bit patterns; unit factors: power-of-two probes (2, 1/8; 4, 1/32)","timeout":900,"text":"unitconvert fwd multiplies x and y by xy_in * (1/xy_out), z by z_in * (1/z_out), leaves t bit-identical, counts every tuple; second tuple transformed independently"}
 #[kani::proof]
 #[kani::unwind(20)]
 #[kani::stub(crate::op::ParsedParameters::real, stub_real)]
 fn c11_unitconvert_fwd() {
-    store(2.0, 0.125, 4.0, 0.03125);
-    let op = bare_op(bare_params("unitconvert"), InnerOp(fwd), Some(InnerOp(inv)), false);
+    let op = bare_op(store(2.0, 0.125, 4.0, 0.03125), InnerOp(fwd), Some(InnerOp(inv)), false);
     let (c0, c1) = (any4(), any4());
     let mut data = [c0, c1];
     let r = fwd(&op, &NoCtx, &mut data);
@@ -29,13 +30,12 @@ fn c11_unitconvert_fwd() {
     assert!(same(data[1][0], c1[0] * 0.25) && same(data[1][2], c1[2] * 0.125) && beq(data[1][3], c1[3]), "C02.K.unitconvert.independent: second tuple gets the same treatment");
 }
 
-//@h {"id":"C11.K.unitconvert.inv","props":["C11","C01","C09"],"tier":"quick","kind":"bounded","bound":"coordinates: all f64 bit patterns; unit factors: power-of-two probes","replay":"none","timeout":900,"text":"unitconvert inv divides by the same ratios; t bit-identical"}
+//@h {"id":"C11.K.unitconvert.inv","props":["C11","C01","C09"],"tier":"quick","kind":"bounded","bound":"coordinates: all f64 bit patterns; unit factors: power-of-two probes","timeout":900,"text":"unitconvert inv divides by the same ratios; t bit-identical"}
 #[kani::proof]
 #[kani::unwind(20)]
 #[kani::stub(crate::op::ParsedParameters::real, stub_real)]
 fn c11_unitconvert_inv() {
-    store(2.0, 0.125, 4.0, 0.03125);
-    let op = bare_op(bare_params("unitconvert"), InnerOp(fwd), Some(InnerOp(inv)), false);
+    let op = bare_op(store(2.0, 0.125, 4.0, 0.03125), InnerOp(fwd), Some(InnerOp(inv)), false);
     let c0 = any4();
     let mut data = [c0];
     let r = inv(&op, &NoCtx, &mut data);
